@@ -1,0 +1,22 @@
+//go:build verif
+
+package tmengine
+
+import (
+	"github.com/gordian-engine/gordian/gcrypto"
+	"github.com/gordian-engine/gordian/tm/tmconsensus"
+	"github.com/gordian-engine/gordian/tm/tmengine/internal/tmmirror"
+	"github.com/gordian-engine/gordian/tm/tmengine/internal/tmstate"
+)
+
+// VerifGetStepFromVoteSummary exposes tsi.GetStepFromVoteSummary to the verification harness.
+func VerifGetStepFromVoteSummary(vs tmconsensus.VoteSummary) uint8 {
+	return tmstate.VerifGetStepFromVoteSummary(vs)
+}
+
+// VerifNewVoteDistribution exposes the mirror kernel's newVoteDistribution.
+func VerifNewVoteDistribution(
+	proofs map[string]gcrypto.CommonMessageSignatureProof, vals []tmconsensus.Validator,
+) (available, present uint64, blockPower map[string]uint64) {
+	return tmmirror.VerifNewVoteDistribution(proofs, vals)
+}
